@@ -107,7 +107,8 @@ func markClass(m string) string {
 // RunSession drives the library through the session and judges every operation.
 func RunSession(s Session) mon.Result {
 	dev := &devsim.CLI{Prompts: s.Prompts, Mode: "exec", NL: s.NL}
-	var cur map[string][]devsim.Token
+	// outputs still owed per command text, in list order (a text may occur several times in a list)
+	var cur map[string][][]devsim.Token
 	unexpected := 0
 	dev.Handler = func(d *devsim.CLI, mode, line string) devsim.Reply {
 		if line == "" {
@@ -121,8 +122,9 @@ func RunSession(s Session) mon.Result {
 				return devsim.Reply{NewMode: "exec"}
 			}
 		}
-		if out, ok := cur[line]; ok {
-			return devsim.Reply{Out: out}
+		if q := cur[line]; len(q) > 0 {
+			cur[line] = q[1:]
+			return devsim.Reply{Out: q[0]}
 		}
 		unexpected++
 		return devsim.Reply{Out: []devsim.Token{devsim.T("?? unexpected input" + d.NL)}}
@@ -192,10 +194,10 @@ func RunSession(s Session) mon.Result {
 		cmds := make([]string, n)
 		refs := make([]string, n)
 		fails := make([]bool, n)
-		m := map[string][]devsim.Token{}
+		m := map[string][][]devsim.Token{}
 		for i, c := range o.Cmds {
 			cmds[i] = c.Text
-			m[c.Text] = c.Out
+			m[c.Text] = append(m[c.Text], c.Out)
 			refs[i] = devsim.RenderRef(c.Out, s.NL, prompt, o.Strip)
 			fails[i] = containsAny(refs[i], inForce)
 		}
@@ -249,7 +251,7 @@ func RunSession(s Session) mon.Result {
 		bad := func(v verdict) mon.Result {
 			return mon.Result{Verdict: mon.Violated, Key: v.key,
 				Detail: fmt.Sprintf("operation %d (%s, stop=%v, strip=%v, driver list %q, operation list given=%v %q, marks %s): %s",
-					oi, o.API, o.Stop, o.Strip, s.DL, o.OLGiven, o.OL, marks(o), v.detail) + fmt.Sprintf(" [option order %v: %s]", names, OptShape(names)),
+					oi, o.API, o.Stop, o.Strip, s.DL, o.OLGiven, o.OL, marks(o), v.detail) + fmt.Sprintf(" [option order %v: %s; repeat %q]", names, OptShape(names), o.Repeat),
 				Events: tail(conn.Log(), 60), NonTrivial: true, Obs: obs}
 		}
 		if cerr != nil {
@@ -317,6 +319,46 @@ func RunSession(s Session) mon.Result {
 		}
 		lc := listClass(&s, o)
 		obs["list_in_force:"+lc]++
+		// repeated command texts / identical members (compared by value here only to count them;
+		// the oracle compares by position)
+		repeated := false
+		identFailed, sameTextOtherOut, sameOutOtherText := int64(0), int64(0), int64(0)
+		for i := 0; i < n; i++ {
+			for k := 0; k < i; k++ {
+				if cmds[k] == cmds[i] {
+					repeated = true
+				}
+			}
+		}
+		for i := 0; i < sent; i++ {
+			dupFailed := false
+			for k := 0; k < i; k++ {
+				switch {
+				case cmds[k] == cmds[i] && refs[k] == refs[i]:
+					if fails[i] {
+						dupFailed = true
+					}
+				case cmds[k] == cmds[i]:
+					sameTextOtherOut++
+				case refs[k] == refs[i] && fails[i]:
+					sameOutOtherText++
+				}
+			}
+			if dupFailed {
+				identFailed++
+			}
+		}
+		if repeated {
+			obs["lists_with_repeated_commands"]++
+			tag("repeat=%s", strings.SplitN(o.Repeat+":", ":", 2)[0])
+		}
+		obs["identical_failed_members"] += identFailed
+		if identFailed > 0 && isMulti(o.API) {
+			obs["multi_operations_with_identical_failed_members"]++
+			obs["identical_failed_members:api_"+o.API]++
+		}
+		obs["control_same_text_different_output_pairs"] += sameTextOtherOut
+		obs["control_same_output_different_text_failed_pairs"] += sameOutOtherText
 		shape := OptShape(names)
 		obs["option_order:"+shape]++
 		tag("option_order=%s", shape)
@@ -618,7 +660,15 @@ func judgeAggregate(prefix, lc string, failed error, rs []*response.Response, cm
 		gotInputs = append(gotInputs, op.Input)
 	}
 	if len(me.Operations) != len(wantIdx) {
-		return &verdict{prefix + ":operations-list", fmt.Sprintf("Operations lists inputs %q, the failed members are %v of %q", gotInputs, wantIdx, cmds[:sent])}
+		k := prefix + ":operations-list"
+		for a := range wantIdx {
+			for b := 0; b < a; b++ {
+				if cmds[wantIdx[a]] == cmds[wantIdx[b]] && refs[wantIdx[a]] == refs[wantIdx[b]] {
+					k = prefix + ":operations-list:identical-failed-members"
+				}
+			}
+		}
+		return &verdict{k, fmt.Sprintf("Operations lists inputs %q, the failed members are %v of %q", gotInputs, wantIdx, cmds[:sent])}
 	}
 	for k, i := range wantIdx {
 		op := me.Operations[k]
@@ -703,6 +753,8 @@ func init() {
 			"Every operation passes its options as a PRNG permutation of the generic-driver options (operation-level failure list, stop-on-failed) mixed with options of other layers " +
 			"(no-strip-prompt and exact-match, which the reference accounts for; and the neutral WithTimeoutOps(90s), WithInterimPromptPattern(never matching), WithPrivilegeLevel(configuration) on config calls); " +
 			"observed shapes counted as generic-only / generic-first / generic-after-foreign / interleaved. " +
+			"About a third of the lists of length >=2 carry a repetition overlay: a command copied to 1-3 other positions (adjacent or apart) with byte-identical output " +
+			"(identical failed members; the aggregate is compared by position and pointer identity, not by value), or as controls the same text with differing outputs / differing texts with identical output. " +
 			"Decoys: unlisted string, driver-level string while an operation-level list overrides it, string of another operation's list, string only in the echoed command, " +
 			"case variant, string broken by a newline, proper prefix. Placement first/middle/last line x start/mid/end/whole line, optionally broken by an escape sequence or CR, several per output. " +
 			"Non-trivial = a session in which at least one returned member failed per the reference (a failure string in force is present in some output). Distinct = distinct descriptor hash.",
